@@ -553,6 +553,7 @@ fn main() {
             let pairs: Vec<(usize, usize)> = (0..gjobs.len()).flat_map(|a| (a..gjobs.len()).map(move |b| (a, b))).collect();
             let bound_max = 2usize;
             let max_runs: u64 = ctx.pick(150, 40_000);
+            let hard_stop = std::time::Instant::now() + std::time::Duration::from_secs(ctx.pick(120, 1500));
             let conflict_runs: u64 = std::env::var("VERIF_E4_CONFLICT_RUNS").ok().and_then(|v| v.parse().ok()).unwrap_or(4000);
             let (runs, hot_points, max_points, reads, writes) = (AtomicU64::new(0), AtomicU64::new(0), AtomicU64::new(0), AtomicU64::new(0), AtomicU64::new(0));
             let capped_pairs = AtomicU64::new(0);
@@ -591,7 +592,9 @@ fn main() {
                 let conflicting = written_by[a].intersection(&written_by[b]).next().is_some();
                 let max_runs = if conflicting { max_runs.max(conflict_runs) } else { max_runs };
                 for bound in 1..=bound_max {
-                    let mut stats = guard::ExploreStats::default();
+                    // (a search that outlives the tier's wall budget is cut and reported as capped: with ~1 s per execution on
+                    // the longest maps a conflicting pair could otherwise run for hours)
+                    let mut stats = guard::ExploreStats { deadline: Some(hard_stop), ..Default::default() };
                     let r = guard::explore_ordered(&|p| guard::run_child(&exe, &base, p, &hot).map(|x| x.0), &check, bound, max_runs, &mut stats, conflicting);
                     runs.fetch_add(stats.runs, Ordering::Relaxed);
                     hot_points.fetch_add(stats.hot_points_seen, Ordering::Relaxed);
